@@ -155,9 +155,11 @@ PROPS = {
             'every character the lexer treats specially (operator characters, blanks, quote and expansion introducers) is in '
             'that set, and that the lexer\'s own predicates are is_operator_char = { newline & ( ) ; < > | } and '
             'is_blank = white space but newline -- so the two separately written components agree character by character. '
-            'Bounded: str_needs_quoting on the empty text and one-character texts (# and ~ first). NOT decided: the positional '
-            'rules for longer texts (:~, {..}, [..]), the quoted form itself (Display for Quoted: single quotes / double quotes '
-            'with four escapes) and its re-reading by the lexer, and the state-listing built-ins (alias, typeset -p, trap, ...), '
+            'Bounded (concrete enumeration): the whole quoting function (str_needs_quoting decision + Display for Quoted) is run on '
+            'every text of <= 2 characters over 16 special and ordinary characters and on ten 3-character texts (:~, {a}, [a], '
+            'mixed quotes) and its output compared with the literal expected form; every expected form was re-read by a reference '
+            'un-quoter written from XCU 2.2 (tools/gen_quote.py) and denotes exactly the original text as one field. NOT decided: '
+            'longer texts, the real lexer re-reading the output (async), and the state-listing built-ins (alias, typeset -p, trap, ...), '
             'which need the shell to evaluate its own output.'),
         'trusted_base': ['Kani 0.68.0 + CBMC 6.11'],
         'assumptions': [
@@ -183,5 +185,23 @@ PROPS = {
             'source::Location is an opaque placeholder type',
             'assumed specs: mem::replace, Option::replace',
         ],
+    },
+    'C20': {
+        'v_units': [],
+        'k_units': ['optparse'],
+        'level': 'other',
+        'explanation': (
+            'Generic option parser only. Kani runs the real parse_arguments (with parse_short_options, parse_long_option, '
+            'long_match) of yash-builtin/src/common/syntax.rs on concrete argument vectors over the word alphabet of the '
+            'property { - -- -a -ab -b -oX -o --long --lo --long=X X } and compares occurrences (option identity, spelling, '
+            'option-argument), operands, or the kind of error, with the literal outcome computed by a reference parser written '
+            'from XBD 12.2 and the documented long-option extension (tools/gen_optparse.py): grouped = separate short options, '
+            'attached = separate option-argument, -- ends options, unambiguous prefixes of long names with exact names winning, '
+            '--name=value = --name value, unknown / ambiguous / missing-argument invocations rejected. One harness per vector '
+            '(5-20 s each). Bounded: see the unit\'s bound; 28 vectors ending in an error with arguments pending are out of '
+            'reach (drop glue of Location inside the function, > 600 s) and excluded. NOT decided: the per-built-in '
+            'interpretation of parsed options, the bespoke parsers of set/kill/typeset and of the shell\'s command line.'),
+        'trusted_base': ['Kani 0.68.0 + CBMC 6.11', 'reference parser in tools/gen_optparse.py'],
+        'assumptions': ['Mode::with_extensions only', 'two fixed option tables'],
     },
 }
